@@ -32,6 +32,10 @@ def setup_worker():
     build.init()
 
 
+def enumerate_cases(tier):
+    yield from c01.origin_rows(["glyf_colr_1", "glyf_colr_0", "picosvg"])
+
+
 def cases(tier):
     main = c01.vector_case(FORMATS, tier, max_sources=4 if tier == "quick" else 8, lib_always=True, lib_prob=0.85, p_grad=0.35,
                            tolerances=TOLS, allow_groups=True)
